@@ -6,7 +6,7 @@
     first due time). *)
 From Verif Require Import Json Outcome.
 
-(** last successful op on (loc, id): "addsched" | "addplain" | "remrule" | "" *)
+(** last successful op on (loc, id): "addsched" | "addplain" | "addfar" | "remrule" | "" *)
 Definition last_op (ops : list json) (loc id : string) : string :=
   fold_left (fun acc o => if String.eqb (jfS "loc" o) loc && String.eqb (jfS "id" o) id && jfB "ok" o
                           then jfS "op" o else acc) ops "".
@@ -14,7 +14,8 @@ Definition last_op (ops : list json) (loc id : string) : string :=
 Definition expected (ops : list json) (loc id : string) : Z * bool :=
   let l := last_op ops loc id in
   if String.eqb l "addsched" then (1, false)      (* ran once, then the one-shot rule deleted itself *)
-  else if String.eqb l "addplain" then (0, true)  (* replaced by an ordinary rule: never runs, stays *)
+  else if String.eqb l "addplain" || String.eqb l "addfar"
+       then (0, true)  (* replaced by an ordinary rule, or by one scheduled far in the future: never runs, stays *)
   else (0, false).                                (* removed, or never added *)
 
 Definition check_cronsys (c : json) : json :=
